@@ -30,6 +30,7 @@ import (
 
 	errorsmod "cosmossdk.io/errors"
 	"cosmossdk.io/log"
+	storetypes "cosmossdk.io/store/types"
 	sdkerrors "github.com/cosmos/cosmos-sdk/types/errors"
 
 	"github.com/noble-assets/orbiter/v2/controller"
@@ -191,12 +192,31 @@ func (c *HyperlaneController) ValidateForwarding(
 }
 
 // executeForwarding initiates an Hyperlane cross-chain transfer.
+//
+// NOTE: the remote transfer runs the post dispatch hooks of the mailbox, or the custom hook named in
+// the payload, with values chosen by the sender of the packet (e.g. the gas limit). The arithmetic of
+// a hook panics on overflow, and a panic would abort the whole transaction of the relayer instead of
+// refusing this single packet. A panic of the handler is therefore reported as a failed forwarding:
+// the error acknowledgement reverts everything the handler did. Running out of gas must still abort
+// the transaction.
 func (c *HyperlaneController) executeForwarding(
 	ctx context.Context,
 	transferAttr *core.TransferAttributes,
 	hypAttr *forwardingtypes.HypAttributes,
 	_ []byte,
-) error {
+) (err error) {
+	defer func() {
+		if r := recover(); r != nil {
+			switch r.(type) {
+			case storetypes.ErrorOutOfGas, storetypes.ErrorGasOverflow, storetypes.ErrorNegativeGasConsumed:
+				panic(r)
+			}
+
+			c.logger.Error("Hyperlane remote transfer panicked", "panic", r)
+			err = fmt.Errorf("error executing Hyperlane forwarding: remote transfer panicked: %v", r)
+		}
+	}()
+
 	// If the len of bytes is zero, we pass nil in the msg construction.
 	var hookAddrPtr *hyperlaneutil.HexAddress
 	if len(hypAttr.CustomHookId) != 0 {
@@ -204,7 +224,7 @@ func (c *HyperlaneController) executeForwarding(
 		hookAddrPtr = &h
 	}
 
-	_, err := c.handler.RemoteTransfer(ctx, &warptypes.MsgRemoteTransfer{
+	_, err = c.handler.RemoteTransfer(ctx, &warptypes.MsgRemoteTransfer{
 		Sender:             core.ModuleAddress.String(),
 		TokenId:            hyperlaneutil.HexAddress(hypAttr.GetTokenId()),
 		DestinationDomain:  hypAttr.DestinationDomain,
